@@ -29,7 +29,7 @@ def can_cast(a, b):
     return promote(a, b) == b
 
 
-OPS = ["fill_int", "fill_float", "fill_float_out", "filln_none", "filln_int", "filln_float", "add", "sub", "iadd", "isub", "mul_int", "mul_float", "imul_float", "div", "idiv", "normalize", "merge", "setdtype"]
+OPS = ["fill_int", "fill_float", "fill_float_out", "fill_npf32", "fill_npi64", "filln_none", "filln_int", "filln_float", "add", "sub", "iadd", "isub", "mul_int", "mul_float", "imul_float", "div", "idiv", "normalize", "merge", "setdtype"]
 
 
 @register
@@ -51,7 +51,7 @@ class C13Ops(Harness):
                         if t1 in ("int32", "float16") and op not in ("setdtype",):
                             continue
                     yield f"op-{t0}-{op}-{t1}", dict(t0=t0, op=op, t1=t1, nd=False)
-        for t0, op in itertools.product(("int64", "float32"), ("fill_float", "filln_float", "isub", "div", "setdtype")):
+        for t0, op in itertools.product(("int64", "float32", "int16"), ("fill_float", "fill_npf32", "fill_npi64", "filln_float", "isub", "div", "setdtype")):
             yield f"op2d-{t0}-{op}", dict(t0=t0, op=op, t1="float64" if op != "setdtype" else "int16", nd=True)
 
     def declare(self, cx, p):
@@ -112,6 +112,12 @@ class C13Ops(Harness):
                 return h
             if op in ("fill_float", "fill_float_out"):
                 h.fill(val, float(wf) if not E.sym else wf)
+                return h
+            if op == "fill_npf32":
+                h.fill(val, np.asarray([wf], dtype="float32")[0])      # a numpy float32 scalar as weight
+                return h
+            if op == "fill_npi64":
+                h.fill(val, np.asarray([x["n"]], dtype="int64")[0])     # a numpy int64 scalar as weight
                 return h
             if op == "filln_none":
                 h.fill_n(vals_n)
@@ -210,6 +216,10 @@ class C13Ops(Harness):
             exp_dt, ref = promote(t0, "int64"), [f[0] + z3.If(in0, n, 0), f[1] + z3.If(in1, n, 0)]
         elif op == "fill_float":
             exp_dt, ref = promote(t0, "float64"), [f[0] + z3.If(in0, k4, 0), f[1] + z3.If(in1, k4, 0)]
+        elif op == "fill_npf32":
+            exp_dt, ref = promote(t0, "float32"), [f[0] + z3.If(in0, k4, 0), f[1] + z3.If(in1, k4, 0)]
+        elif op == "fill_npi64":
+            exp_dt, ref = promote(t0, "int64"), [f[0] + z3.If(in0, n, 0), f[1] + z3.If(in1, n, 0)]
         elif op == "fill_float_out":
             exp_dt, ref = promote(t0, "float64"), [f[0], f[1]]
             if not p["nd"]:
